@@ -11,7 +11,7 @@ LEVEL = "exploration"
 RULE = (
     "event histories over {connect, send-partial, send-complete (small / large response), client-reads, client-stalls, "
     "app-finishes, advance-clock(1 | channel_timeout | long)} driven by a director on a virtual clock against the real "
-    "server loop (asyncore_loop_timeout 1) for connection_limit in {4,5,8}, channel_timeout in {3,10}, cleanup_interval "
+    "server loop (asyncore_loop_timeout 1) for connection_limit in {4,5,8,12} (24 in a directed history), channel_timeout in {3,10}, cleanup_interval "
     "in {1,4}, 1-2 listening sockets, 1-2 workers; applications block on scenario events. ALL histories up to length 4 "
     "(quick) / 5 (thorough) over the 10-letter alphabet with deterministic target selection, random histories up to "
     "length 14 beyond. Monitors: socket-map size at every mutation and at every accept; per connection the virtual "
@@ -22,7 +22,8 @@ ASSUMPTIONS = [
     "liveness restated as bounded progress on the virtual clock; histories end with a long clock advance",
 ]
 SHARD_TIMEOUT = {"quick": 600, "thorough": 3000}
-ALPHABET = ["C", "P", "Q", "S", "L", "R", "T", "F", "a", "A"]
+ALPHABET = ["C", "P", "Q", "S", "L", "R", "T", "F", "X", "a", "A"]
+# X the lowest free (accepted, idle) connection is closed by its client
 # C connect; P partial request on the newest free connection; Q a few more bytes of a partial request; S complete request (small response) on the
 # lowest free connection; L same with a response larger than the send buffer; R / T the lowest connection
 # with unread output starts / stops reading; F the oldest blocked application finishes; a advance 1 s;
@@ -38,7 +39,7 @@ def required_counters(tier):
 
 def configs():
     out = []
-    for limit in (4, 5, 8):
+    for limit in (4, 5, 8, 12):
         for ct in (3, 10):
             for ci in (1, 4):
                 for nl in (1, 2):
@@ -109,7 +110,7 @@ def run_history(cfg, hist):
                               "reqs": []})
             elif ev in ("S", "L", "P"):
                 free = [st for st in state if not st["busy"] and not st["partial"] and not st["client"].conn.server_closed
-                        and st["client"].conn.accepted]
+                        and st["client"].conn.accepted and not st.get("closed")]
                 if not free:
                     continue
                 st = free[0] if ev != "P" else free[-1]
@@ -126,6 +127,14 @@ def run_history(cfg, hist):
                     st["busy"] = True
                     st["sent"] += 1
                     st["reqs"].append({"idx": idx, "t_sent": now, "large": ev == "L"})
+            elif ev == "X":
+                free = [st for st in state if not st["busy"] and not st["partial"] and not st["client"].conn.server_closed
+                        and st["client"].conn.accepted and not st.get("closed")]
+                if free:
+                    free[0]["client"].close()
+                    free[0]["closed"] = True
+                    free[0]["reading"] = False
+                    free[0]["t_client_close"] = now
             elif ev == "Q":
                 part = [st for st in state if st["partial"] and not st["client"].conn.server_closed and st["client"].conn.accepted]
                 if part:
@@ -403,6 +412,9 @@ DIRECTED = [
     ({"connection_limit": 8, "channel_timeout": 3, "cleanup_interval": 1, "listeners": 1, "threads": 1}, "CCSSAAFaFA"),
     # large response to a peer that stops reading (finding F-12)
     ({"connection_limit": 8, "channel_timeout": 3, "cleanup_interval": 1, "listeners": 1, "threads": 1}, "CTLFA"),
+    # a limit large enough for any hysteresis to show: at the limit, one waits in the backlog, ONE client leaves
+    ({"connection_limit": 12, "channel_timeout": 10, "cleanup_interval": 4, "listeners": 1, "threads": 1}, "CCCCCCCCCCCaXaaa"),
+    ({"connection_limit": 24, "channel_timeout": 10, "cleanup_interval": 4, "listeners": 2, "threads": 1}, "C" * 23 + "aXaaa"),
     # partial request then silence
     ({"connection_limit": 8, "channel_timeout": 3, "cleanup_interval": 4, "listeners": 1, "threads": 2}, "CPA"),
 ]
